@@ -124,15 +124,21 @@ EncVerdict(m, o, res) ==
 OddDotCr(l) == Len(l) >= 2 /\ l[1] = DOT /\ l[2] = CR
 LineOk(stored, wire) == stored = Unstuff(wire) \/ (OddDotCr(wire) /\ stored = wire)
 
-DecVerdict(s, res, msg, used) ==
+NumLF(s) == Cardinality({i \in 1..Len(s) : s[i] = LF})
+
+\* used: bytes consumed by DATA (or -1 if not observed); queued: did the queue program see a
+\* complete envelope (only then can a message have been committed)
+DecVerdict(s, res, msg, used, queued) ==
   LET r == RefRecv(s)
-  IN IF r.st = "more" THEN (IF res = "eof" THEN "" ELSE "ShouldWaitForMore")
-     ELSE IF r.st = "bad" THEN (IF res = "bad" THEN "" ELSE "BareLFNotRefused")
+  IN IF r.st = "more" THEN (IF res # "eof" THEN "ShouldWaitForMore" ELSE IF queued THEN "QueuedWithoutTerminator" ELSE "")
+     ELSE IF r.st = "bad" THEN (IF res # "bad" THEN "BareLFNotRefused" ELSE IF queued THEN "QueuedDespiteBareLF" ELSE "")
      ELSE IF res # "end" THEN "TerminatorNotRecognised"
+     ELSE IF ~queued THEN "AcceptedButNotQueued"
      ELSE IF used # -1 /\ used # r.used THEN "WrongFraming"
      ELSE LET got == LinesB(msg)
+              wl  == WireLines(s)
           IN IF ~CompleteB(msg) \/ Len(got) # Len(r.lines) THEN "LinesChanged"
-             ELSE IF \A k \in 1..Len(got) : LineOk(got[k], WireLines(s)[k]) THEN "" ELSE "LinesChanged"
+             ELSE IF \A k \in 1..Len(got) : LineOk(got[k], wl[k]) THEN "" ELSE "LinesChanged"
 
 (***************************************************************************)
 (* Reference encoder (what a conforming sender does with a message made of *)
